@@ -12,9 +12,10 @@ secondOrder_case3 secondOrderEntry_eq_nested secondOrderIntegral_eq_nested case1
 case1_to_case2_limit case1_case2_forms nested_integral_swap nested_add_swap nested_conj
 ff2_plus_adjoint secondOrderEntry_plus_adjoint secondOrder_source_shape secondOrderFF_source_shape
 secondOrderFF_entry secondOrderFF_plus_adjoint_of_segments secondOrderStep_plus_adjoint
-secondOrderFF_plus_adjoint secondOrderFFFromScratch_plus_adjoint'''.split()
-LEAN_MODULES = ['FFVerif.Props.C10', 'FFVerif.Props.C10Asm']
-GEN_SITES = ['const:numeric._second_order_integral',
+secondOrderFF_plus_adjoint secondOrderFFFromScratch_plus_adjoint'''.split() + [
+    'FFVerif.C07.cleanup_freq', 'FFVerif.C07.getFF_spec', 'FFVerif.C07.served_value_is_fresh']
+LEAN_MODULES = ['FFVerif.Props.C10', 'FFVerif.Props.C10Asm', 'FFVerif.Props.C07']
+GEN_SITES = ['cache:cleanup', 'const:numeric._second_order_integral',
              'einsum:numeric_calculate_second_order_filter_function_0',
              'einsum:numeric_calculate_second_order_filter_function_1',
              'einsum:numeric_calculate_second_order_filter_function_2']
@@ -184,36 +185,47 @@ def spec_ff2(desc, omega):
     return F2
 
 
-def near_resonance(desc, omega, lo=0.0, hi=1e-3):
-    """is some frequency within (lo, hi) (in units of 1/dt) of a resonance ±Ω of some segment?"""
-    H = gens.seg_hamiltonians(desc)
-    for g, dtg in enumerate(desc['dt']):
+def near_resonance(pulse, omega, hi=1e-3):
+    """Does the package, with ITS eigenvalues and ITS floating-point expressions for the three
+    energy denominators of `_second_order_integral`, see a denominator that is tiny but not
+    exactly zero (0 < |x|·dt < hi) in some segment?  That is the territory of the open finding
+    F9; exact zeros are handled by the masks and are not excused."""
+    omega = np.asarray(omega, dtype=float)
+    for g, dtg in enumerate(pulse.dt):
         if dtg == 0:
             continue
-        lam = np.linalg.eigvalsh(H[g])
-        dl = np.subtract.outer(lam, lam).ravel()
-        x = np.abs(np.add.outer(np.asarray(omega), dl))*dtg
-        if ((x > lo) & (x < hi)).any():
-            return True
+        ev = pulse.eigvals[g]
+        dE = np.subtract.outer(ev, ev)
+        for v in (np.add.outer(omega, dE), np.subtract.outer(-omega, -dE), np.add.outer(dE, dE)):
+            x = np.abs(v)*dtg
+            if ((x > 0) & (x < hi)).any():
+                return True
     return False
 
 
 def check_ff2(ctx, case):
     desc, omega = case['desc'], np.asarray(case['omega'], dtype=float)
-    p = gens.build(desc)
+    hrng = np.random.default_rng(case.get('hseed', 0))
+    p = gens.build_used(desc, hrng, 0.6, len(omega), omega, ('phases', 'cache_phases', 'ff1', 'cm'))
     F2 = p.get_filter_function(omega, order=2)
     S = spec_ff2(desc, omega)
     sc = max(np.max(np.abs(S)), 1e-300)
+    if F2.shape != S.shape:
+        ctx.count((tuple(desc['features']), desc['d'], len(desc['dt']), omega.tobytes()))
+        ctx.fail('ff2_vs_nested_integral', case, {'shape': list(F2.shape)}, {'shape': list(S.shape)},
+                 {'near_resonance': False},
+                 f'second-order FF has shape {F2.shape}, expected {S.shape} (stale value served?)')
+        return np.inf
     err = float(np.max(np.abs(F2 - S))/sc) if np.all(np.isfinite(F2)) else np.inf
-    F1 = gens.build(desc).get_filter_function(omega, 'generalized')
+    F1 = gens.build_used(desc, hrng, 0.5, len(omega)).get_filter_function(omega, 'generalized')
     res = F2 + F2.conj().transpose(1, 0, 3, 2, 4) - F1
     ierr = float(np.max(np.abs(res))/max(np.max(np.abs(F1)), 1e-300))
     # with cached intermediates
     q = gens.build(desc)
     q.get_control_matrix(omega, cache_intermediates=True)
     F2c = q.get_filter_function(omega, order=2)
-    cerr = float(np.max(np.abs(F2c - F2))/max(np.max(np.abs(F2)), 1e-300))
-    near = near_resonance(desc, omega)
+    cerr = gens.rel_err(F2c, F2)
+    near = near_resonance(p, omega)
     ctx.count((tuple(desc['features']), desc['d'], len(desc['dt']), omega.tobytes()),
               nontrivial=len(desc['dt']) >= 2)
     feats = {'near_resonance': bool(near)}
@@ -277,7 +289,7 @@ def search(ctx, deep=False):
             om = np.concatenate((rng.choice(res, 2), -rng.choice(res, 1), [0.0], rng.uniform(-5, 5, 2)))
         else:             # near resonances (known finding F9 territory)
             om = rng.choice(res, 3) + rng.choice([1e-12, 1e-9, 1e-7, 1e-5], 3)
-        check_ff2(ctx, {'desc': desc, 'omega': om})
+        check_ff2(ctx, {'desc': desc, 'omega': om, 'hseed': int(rng.integers(0, 2**31))})
         if i % 6 == 0:
             check_shifts(ctx, {'desc': desc, 'omega': np.sort(rng.uniform(-6, 6, 30))})
         if i < 2:
